@@ -1106,6 +1106,18 @@ class Interp:
             v = ev(1)
             self.push(arg_nodes[0], v, env, front=False)
             return UNIT
+        if re.search(r"(Vec::<T, A>::extend_from_slice|<alloc::vec::Vec<T, A> as core::iter::traits::collect::Extend<.*>>::extend|core::iter::traits::collect::Extend::extend)$", g) and len(arg_nodes) == 2 \
+                and "alloc::vec::Vec<" in ((core.strip(arg_nodes[0]).get("ty") or "") + (arg_nodes[0].get("aty") or "")):
+            tgt = core.strip(arg_nodes[0])
+            while tgt.get("k") in ("AddrOf", "Unary"):
+                tgt = core.strip(tgt["e"])
+            if tgt.get("k") == "Field" or (tgt.get("k") == "Path" and tgt.get("res") == "local" and isinstance(env.get(tgt.get("lid")), tuple) and env[tgt["lid"]][0] == "vec"):
+                v = ev(1)
+                try:
+                    self.push(arg_nodes[0], v, env, front=False, whole=True)
+                    return UNIT
+                except Unsupported:
+                    pass
         if g.endswith("VecDeque::<T, A>::push_front"):
             v = ev(1)
             self.push(arg_nodes[0], v, env, front=True)
@@ -1185,11 +1197,32 @@ class Interp:
             return v
         return ("app", f"into<{core.short(tgt_ty)}>", (v,))
 
-    def push(self, place, v, env, front):
+    def push(self, place, v, env, front, whole=False):
+        """append `v` (an element; with whole=True a collection whose elements are appended) to the vector at `place`"""
         p = core.strip(place)
+        while p.get("k") in ("AddrOf", "Unary"):
+            p = core.strip(p["e"])
+        if p.get("k") == "Field":
+            # a vector-typed field of a struct value held in a local
+            cur = self.eval(p, env)
+            if cur[0] in ("in", "fld", "app"):
+                self.notes.append(f"push onto opaque collection {term_str(cur, 2)} at {core.loc(place)}")
+                return
+            if cur[0] != "vec":
+                raise Unsupported("push on a non-vector value")
+            self.assign(p, ("vec", cur[1] + self._segs(v, front, whole)), env)
+            return
         if not (p.get("k") == "Path" and p.get("res") == "local"):
             raise Unsupported(f"push on {core.fingerprint(place, 3)}")
         cur = env.get(p["lid"], ("vec", ()))
+        if whole:
+            if cur[0] in ("in", "fld", "app"):
+                self.notes.append(f"extend of opaque collection {term_str(cur, 2)} at {core.loc(place)}")
+                return
+            if cur[0] != "vec":
+                raise Unsupported("extend on a non-vector value")
+            env[p["lid"]] = ("vec", cur[1] + self._segs(v, front, whole))
+            return
         if cur[0] in ("in", "fld", "app"):
             # an opaque collection (a parameter, a field): it absorbs the element; iterating it later yields its
             # generic element.  Recorded so that a rule that depends on the contents can refuse.
@@ -1204,6 +1237,16 @@ class Interp:
         if front and self.loop_stack:
             seg = ("seg", ("rev", self.loop_stack[-1]), v, None)
         env[p["lid"]] = ("vec", (seg,) + cur[1]) if front else ("vec", cur[1] + (seg,))
+
+
+    def _segs(self, v, front, whole):
+        if whole:
+            if isinstance(v, tuple) and v and v[0] == "vec":
+                return v[1]
+            return (("seg", ("iter", v), ("elem", v), None),)
+        if self.loop_stack:
+            return (("seg", ("rev", self.loop_stack[-1]) if front else self.loop_stack[-1], v, None),)
+        return (("one", v),)
 
 
 # ---------------------------------------------------------------------------- path enumeration over events
